@@ -87,6 +87,54 @@ def replay(path):
     sys.exit(p.returncode)
 
 
+def wide_shard(shard, nshards, tier):
+    """end to end through XalanTransformer with encodings whose transcoder needs several passes per stream chunk (4 bytes per unit:
+    UTF-32; escape-sequence heavy: ISO-2022-JP): every text length 0..70 (thorough 0..1100: across two 512-unit chunks) x 6 content
+    patterns; the bytes are decoded here (the XML parsers at hand do not read these encodings) and must parse back to the tree"""
+    import refdoc as R
+    w = vlib.Worker('xdrv', stderr_path=os.path.join(vlib.BUILD, 'tmp', 'c04w.%d.err' % shard))
+    counts = {'wide_evaluations': 0, 'wide_nontrivial': 0}
+    viols = []
+    lens = range(0, 1101) if tier == 'thorough' else list(range(0, 71)) + list(range(500, 530)) + list(range(1010, 1040))
+    pats = [('ascii', 'x'), ('latin', '\u00e9'), ('kana-ascii', '\u30a2a'), ('cjk', '\u4e2d'), ('astral', '\U00020000'), ('markup', '<&')]
+    encs = [('UTF-32', 'utf-32-le'), ('ISO-2022-JP', 'iso2022_jp')]
+    jobs = [(e, p, n) for e in encs for p in pats for n in lens]
+    for ji, ((enc, codec), (pname, unit), n) in enumerate(jobs):
+        if ji % nshards != shard:
+            continue
+        if enc == 'ISO-2022-JP' and pname in ('latin', 'astral'):
+            continue        # not representable: character references, exercised by the other encodings
+        text = (unit * (n // len(unit) + 1))[:n]
+        xsl = ('<xsl:stylesheet version="1.0" xmlns:xsl="http://www.w3.org/1999/XSL/Transform"><xsl:output encoding="%s"/><xsl:template match="/">'
+               '<o a="{/r}"><xsl:value-of select="/r"/><e/><xsl:comment>c</xsl:comment></o></xsl:template></xsl:stylesheet>' % enc)
+        src = '<r>' + text.replace('&', '&amp;').replace('<', '&lt;') + '</r>'
+        counts['wide_evaluations'] += 1
+        try:
+            r = w.request('tr', xsl, src)
+        except vlib.WorkerDied as wd:
+            viols.append(('wide|%s|%s|fatal' % (enc, pname), {'length': n, 'stderr': wd.stderr_tail[-800:]}))
+            continue
+        if r[0] != '0':
+            viols.append(('wide|%s|%s|unexpected-error' % (enc, pname), {'length': n, 'error': r[1][:200]}))
+            continue
+        raw = r[2].encode('utf-8', 'surrogateescape')
+        try:
+            txt = raw.decode(codec).lstrip('\ufeff')
+            txt = txt.replace('encoding="%s"' % enc, 'encoding="UTF-8"', 1)
+            d = R.parse_xml(txt.encode('utf-8'))
+            o = d.docel
+            got = (o.local, [(a.local, a.value) for a in o.attrs], [(c.kind, c.value if c.kind in (R.TEXT, R.COMMENT) else c.local) for c in o.children])
+        except Exception as e:
+            viols.append(('wide|%s|%s|illformed' % (enc, pname), {'length': n, 'error': str(e)[:200], 'bytes': len(raw), 'head': raw[:80].hex(), 'tail': raw[-80:].hex()}))
+            continue
+        exp = ('o', [('a', text)], ([(R.TEXT, text)] if text else []) + [(R.ELEM, 'e'), (R.COMMENT, 'c')])
+        counts['wide_nontrivial'] += 1
+        if got != exp:
+            viols.append(('wide|%s|%s|different-tree' % (enc, pname), {'length': n, 'expected_text_length': len(text), 'got': str(got)[:300]}))
+    w.close()
+    return {'counts': counts, 'viols': viols, 'samples': []}
+
+
 def main():
     tier, rp = vlib.tier_from_argv()
     if rp:
@@ -96,13 +144,24 @@ def main():
     counts, viols, samples = vlib.run_cpp_sharded('c04', [tier], env=env)
     harness_bad = [v for v in viols if v.signature.startswith('harness|')]
     viols = normalise([v for v in viols if not v.signature.startswith('harness|')]) + harness_bad
+    wres = vlib.run_sharded(wide_shard, (tier,))
+    wcounts = vlib.merge_counts([r['counts'] for r in wres])
+    seenw = set()
+    for r in wres:
+        for sig, det in r['viols']:
+            if sig not in seenw:
+                seenw.add(sig)
+                viols.append(vlib.Violation(sig, det))
     hist = {k[4:]: counts.get(k, 0) for k in ('out_ok', 'out_error_as_expected', 'out_unexpected_error', 'out_illformed',
                                               'out_different_tree', 'out_serializers_disagree', 'out_harness')}
     hist['fatal'] = counts.get('fatal_outcomes', 0)
     cov = {
-        'evaluations': counts.get('evaluations', 0),
-        'distinct_nontrivial': counts.get('nontrivial', 0),
-        'rule': 'Every combination of serializer {XalanXMLSerializerFactory product, legacy FormatterToXML} x encoding {UTF-8, UTF-16, '
+        'evaluations': counts.get('evaluations', 0) + wcounts.get('wide_evaluations', 0),
+        'distinct_nontrivial': counts.get('nontrivial', 0) + wcounts.get('wide_nontrivial', 0),
+        'wide_encoding_evaluations': wcounts.get('wide_evaluations', 0),
+        'rule': 'Family wide (end to end, UTF-32 and ISO-2022-JP, whose transcoders need several passes per stream chunk): every text length '
+                '0..70 and around 512 and 1024 (thorough: every length 0..1100) x 6 content patterns in text and attribute value; decoded here. '
+                'Every combination of serializer {XalanXMLSerializerFactory product, legacy FormatterToXML} x encoding {UTF-8, UTF-16, '
                 'ISO-8859-1, US-ASCII, windows-1252 and GB18030 (both ICU transcoder)} x XML version {1.0, 1.1} x item kind {text, attribute '
                 'value, CDATA section (cdata on), comment, PI data, element name, attribute name} x 35 character items (markup characters, '
                 'TAB/CR/LF, ]]> ]] ], -- -, ?>, U+0080 U+0085 U+00FF U+0100 U+07FF U+0800 U+2028 U+FFFD U+FFFE U+FFFF U+10000 U+10FFFF, lone '
